@@ -6,7 +6,7 @@ from ..strategies import sample_cases, sim_cases, spec_strategy
 from ._sim_common import frac, summarize
 
 ID = "C11"
-RULE = ("Configurations as for C05 (scripted normal and high-frequency agents + traced built-in agents; in half of the runs a TradingHaltRule on some of the markets, so that rounds stop a market half-way through their dispatch). submitted_order / "
+RULE = ("(scripted agents also come as classes that inherit everything from an intermediate class, and as HighFrequencyAgent subclasses that list HighFrequencyAgent BEFORE the base supplying the callbacks) Configurations as for C05 (scripted normal and high-frequency agents + traced built-in agents; in half of the runs a TradingHaltRule on some of the markets, so that rounds stop a market half-way through their dispatch). submitted_order / "
         "canceled_order / executed_order calls recorded per agent are compared as multisets (and, per agent, in order) with "
         "the agents' own accepted orders / cancels and with the fills seen by the logger (buyer once + seller once, twice on "
         "a self-trading agent, nobody else; record fields equal); at every executed_order call the holdings of ALL agents "
